@@ -462,16 +462,32 @@ Fixpoint mem_bytes (x : bytes) (l : list bytes) : bool :=
 Definition has_sq (s : bytes) : bool := existsb (Ascii.eqb c_sq) s.
 Definition squote (s : bytes) : bytes := c_sq :: s ++ [c_sq].
 
+Definition is_bool_kw (s : bytes) : bool := bytes_eqb s (B "true") || bytes_eqb s (B "false").
+(* a value that still carries the quotes it was written with (join alias): len > 1, first = last = quote *)
+Definition already_quoted (s : bytes) : bool :=
+  match s, rev s with
+  | c :: _ :: _, q :: _ => Ascii.eqb c c_sq && Ascii.eqb q c_sq
+  | _, _ => false
+  end.
+
 Section Ident.
   Variable reserved : list bytes.          (* RESERVED_WORDS: the grammar's literal names, quotes removed *)
 
-  (* ASTString._format_reserved_word (faithful): only reserved words are quoted *)
-  Definition render_ident_impl (n : bytes) : bytes := if mem_bytes n reserved then squote n else n.
-  (* spec: every name that is not a plain IDENTIFIER token needs its quotes *)
+  (* ASTString._format_reserved_word BEFORE /repo d900c32: only reserved words were quoted (kept for the witnesses) *)
+  Definition render_ident_before_fix (n : bytes) : bytes := if mem_bytes n reserved then squote n else n.
+  (* ASTString._format_reserved_word, current code (faithful): reserved word -> quoted; already quoted -> unchanged;
+     true/false or not a plain IDENTIFIER -> quoted; else bare *)
+  Definition render_ident_impl (n : bytes) : bytes :=
+    if mem_bytes n reserved then squote n
+    else if already_quoted n then n
+    else if is_bool_kw n || negb (is_plain_ident n) then squote n
+    else n.
+  (* spec: every name that the lexer would not read back as that IDENTIFIER needs its quotes *)
   Definition render_ident (n : bytes) : bytes :=
-    if mem_bytes n reserved || negb (is_plain_ident n) then squote n else n.
+    if mem_bytes n reserved || is_bool_kw n || negb (is_plain_ident n) then squote n else n.
 
-  (* lexer + Terminals._remove_scaped_characters: quoted x -> x ; a bare word is an IDENTIFIER unless it is a keyword *)
+  (* lexer + Terminals._remove_scaped_characters: quoted x -> x ; a bare word is an IDENTIFIER unless it is a keyword
+     (a literal name of the grammar, or true / false) *)
   Definition parse_ident (s : bytes) : option bytes :=
     match s with
     | [] => None
@@ -481,7 +497,7 @@ Section Ident.
           | q :: m => if Ascii.eqb q c_sq && negb (has_sq m) then Some (rev m) else None
           | [] => None
           end
-        else if is_plain_ident s && negb (mem_bytes s reserved) then Some s else None
+        else if is_plain_ident s && negb (mem_bytes s reserved) && negb (is_bool_kw s) then Some s else None
     end.
 End Ident.
 
@@ -496,7 +512,9 @@ Inductive stmt :=
 | SOperator (name : bytes) (text : bytes)
 | SViral (name : bytes) (text : bytes).
 
-Definition script := list stmt.            (* children of the AST returned by create_ast (after DAGAnalyzer.sort_ast) *)
+Definition script := list stmt.            (* children of the AST returned by create_ast (after DAGAnalyzer.sort_ast); an
+                                              assignment's name is the result name as the printer renders it (quoted when it
+                                              needs quotes) — what ast_to_sdmx stores since /repo 65c4527 *)
 
 Record transformation := { t_id : nat; t_result : bytes; t_persistent : bool; t_expr : bytes }.
 Record ruleset_item := { r_id : nat; r_kind : rs_kind; r_name : bytes; r_text : bytes }.
